@@ -21,7 +21,7 @@ class Lab:
         self.default_config = conf.default_path_config or self.configs[0]
         self.usable = [t for t in self.model.templates if self.vocab.usable(t)]
 
-    def new_universe(self, n_leaves=None, junk=False, names=None, ents=None):
+    def new_universe(self, n_leaves=None, junk=False, names=None, ents=None, only_default=None):
         from spil import FindInList, FindInPaths, FindInAll
         rng = self.rng
         self.trees.reset()
@@ -29,9 +29,24 @@ class Lab:
         if names is None and rng.random() < 0.35:
             # a name and the same name behind the file-name separator (x_rig / rig): ambiguous in '_' joined file names
             self.names = sorted(set(self.names[:2]) | {"rig", "x_rig"})
+        if names is None and rng.random() < 0.2:
+            # an open-level name that is also a legal leaf (extension) value: '.../w/vdb' (file) next to '.../w/vdb/abc' (node 'vdb')
+            lits = [v for t in self.model.templates for i, seg in enumerate(self.vocab.info[t.name]) if i == t.nseg - 1
+                    for v in seg["lits"] if v not in self.model.alias]
+            if lits:
+                self.names = sorted(set(self.names[:2]) | set(rng.sample(sorted(set(lits)), min(2, len(set(lits))))))
         self.ents = ents if ents is not None else universe.gen_universe(
             rng, self.model, self.vocab, n_leaves=n_leaves or rng.choice([8, 20, 40]), names=self.names)
         self.exists = self.trees.materialise(self.ents)
+        self.base_by_config = {c: {e for e in self.ents if self.trees.path_of(c, e)[0] is not None} for c in self.configs}
+        self.only_default = []
+        if only_default or (ents is None and len(self.configs) > 1 and rng.random() < 0.3):
+            # the trees need not hold the same entities: a few more only in the default configuration
+            extra = list(only_default) if only_default else universe.gen_universe(rng, self.model, self.vocab, n_leaves=4, names=self.names, all_levels=False)
+            more = self.trees.materialise(extra, configs=[self.default_config])
+            self.exists[self.default_config] = self.trees.closure(self.default_config, set(self.exists[self.default_config]) | set(more[self.default_config]))
+            self.only_default = sorted(extra)
+            self.base_by_config[self.default_config] |= {e for e in extra if self.trees.path_of(self.default_config, e)[0] is not None}
         self.planted = self.trees.plant_junk(rng, self.ents) if junk else []
         self.list = sorted(self.exists[self.default_config])
         self.full = universe.with_ancestors(self.ents)
@@ -42,14 +57,15 @@ class Lab:
         self.allmodel = AllModel(self.model, self.exists)
         return self.ents
 
-    def refresh_exists(self, new_ents):
+    def refresh_exists(self, new_ents, configs=None):
         """After entities were created through spil's writer: recompute the model's existing sets."""
         self.ents = sorted(set(self.ents) | set(new_ents))
+        for c in (configs or self.configs):
+            self.base_by_config[c] |= {e for e in new_ents if self.trees.path_of(c, e)[0] is not None}
         for c in self.configs:
-            ex = {e for e in self.ents if self.trees.path_of(c, e)[0] is not None}
-            self.exists[c] = self.trees.closure(c, ex)
+            self.exists[c] = self.trees.closure(c, self.base_by_config[c])
         self.list = sorted(self.exists[self.default_config])
-        self.full = universe.with_ancestors(self.ents)
+        self.full = universe.with_ancestors(sorted(set(self.ents) | set(getattr(self, "only_default", []))))
 
     def search(self, allow_last=False, from_entity=True, **kw):
         rng = self.rng
